@@ -95,6 +95,15 @@ let gen_sig12 r : nv =
   let w = e + List.length dg - 1 in
   { neg = rbool r; w; ds = (if x < 0 then min 40 (- x) else 0); digits = dg }
 
+(* g digit groups, all but the last 1..3 of them zero (leading zero groups), scaled so that the value
+   stays in the exact class: exercises the digit loop / length fields beyond 8 groups with a strict S *)
+let gen_padded ?(wmax = 32767) r (g : int) : nv =
+  let nsig = min g (rrange r 1 3) in
+  let sigd = List.init nsig (fun i -> if i = 0 then 1 + rint r 9000 else gen_digit r) in
+  let digits = List.init (g - nsig) (fun _ -> 0) @ sigd in
+  let e = rrange r (-5) (min 5 (wmax - (g - 1))) in
+  { neg = rbool r; w = e + g - 1; ds = (if e < 0 then min 40 (-4 * e) else 0); digits }
+
 let fits_short v = v.w >= -64 && v.w <= 63 && v.ds >= 0 && v.ds <= 63
 
 (* ---------- running the model / printing ---------- *)
@@ -135,10 +144,10 @@ let emit_column ~tag r (v : nv) (long : bool) =
         [ hexf bytes; hexf t; hex16 nb; string_of_int max_ulp ]
     | None -> emit ~fn:"DecodeNumericNear" ~tag:(tag ^ "_near") ~s:"spec-and-oracle-disagree" ~m [ hexf bytes; hexf t; "0"; "0" ]
 
-let emit_jsonb ~tag r (v : nv) (long : bool) =
+let emit_jsonb ?(force1b = false) ~tag r (v : nv) (long : bool) =
   let num = to_num v in
   let content = if long then enc_long num else enc_short num in
-  let one_byte = v.digits <> [] && List.length content < 120 && rint r 4 = 0 in
+  let one_byte = v.digits <> [] && List.length content <= 126 && (force1b || rint r 4 = 0) in
   let img = if one_byte then enc_varlena1 content else enc_varlena4 content in
   let extra = if rint r 4 = 0 then rbytes r (1 + rint r 5) else [] in
   let t = rtail r in
@@ -212,13 +221,24 @@ let gen_case r k =
     if fits_short v then emit_column ~tag:"sig12_short" r v false else emit_column ~tag:"sig12_long" r v true
   | 3 -> emit_column ~tag:"sig12_long" r (gen_sig12 r) true
   | 4 | 5 -> emit_column ~tag:"gen_short" r (gen_general r) false
-  | 6 -> emit_column ~tag:"gen_long" r (gen_general r) true
+  | 6 -> if rint r 3 = 0 then begin
+      (* 9..60 digit groups (leading zero groups), column form, both headers *)
+      let v = gen_padded r (pick r [| 9; 10; 16; 17; 31; 32; 33; 60 |]) in
+      emit_column ~tag:"padded_many" r v (not (fits_short v) || rbool r) end
+    else emit_column ~tag:"gen_long" r (gen_general r) true
   | 7 -> (* long form with weights/dscales a short header cannot hold *)
     let v = gen_general r in
     let v = { v with w = pick r [| -17; 17; 64; -65; 70; -70; 63; -64 |]; ds = pick r [| 64; 100; 16383; 41; 0x1555 |] } in
     emit_column ~tag:"gen_long_wide" r v true
   | 8 -> emit_jsonb ~tag:"jsonb_sig12" r (gen_sig12 r) (rint r 3 = 0)
-  | 9 -> let v = gen_general r in emit_jsonb ~tag:"jsonb_gen" r v (rint r 3 = 0)
+  | 9 -> (match rint r 4 with
+      | 0 -> (* 1-byte varlena header with total length 65..127 (length byte >= 0x80) *)
+        let v = gen_padded ~wmax:63 r (pick r [| 31; 32; 40; 61; 62 |]) in
+        emit_jsonb ~force1b:true ~tag:"jsonb_padded" r v false
+      | 1 -> (* 4-byte varlena header with total length > 255 (second length byte in use) *)
+        let v = gen_padded r (pick r [| 125; 126; 127; 128; 200 |]) in
+        emit_jsonb ~tag:"jsonb_padded_big" r v true
+      | _ -> let v = gen_general r in emit_jsonb ~tag:"jsonb_gen" r v (rint r 3 = 0))
   | 10 -> (* specials, column and JSONB form *)
     let sp = special_of (rint r 3) in
     let bytes = enc_short sp in
@@ -277,7 +297,9 @@ let gen_case r k =
       let d = match rint r 4 with 0 -> take (pick r [| 0; 1; 3; 4; 5 |]) (enc_long (to_num v)) | 1 -> rbytes r (pick r [| 4; 6; 7; 10 |]) | _ -> enc_long (to_num v) in
       emit ~fn:"DecodeNumericLong" ~tag:"direct_long" ~s:"-" ~m:(c_model (decodeNumericLong (gs d []))) [ hexf d; "-" ] end
 
+(* the random stream comes first: its cases carry a strict S far more often than the sweep's, and
+   bin/check keeps only the first 40 mismatches when it looks for an input with I <> S *)
 let gen seed n =
-  sweep ();
-  for k = 0 to n - 1 do gen_case (rng_for seed k) k done
+  for k = 0 to n - 1 do gen_case (rng_for seed k) k done;
+  sweep ()
 let () = main gen
